@@ -309,7 +309,7 @@ void QuadraticModel<bias_type, index_type>::resize(index_type n, Vartype vartype
 template <class bias_type, class index_type>
 void QuadraticModel<bias_type, index_type>::resize(index_type n, Vartype vartype, bias_type lb,
                                                    bias_type ub) {
-    assert(n > 0);
+    assert(n >= 0);
     varinfo_.resize(n, varinfo_type(vartype, lb, ub));
     base_type::resize(n);
 }
